@@ -26,7 +26,6 @@ import numpy as np
 from .. import tlc
 
 LEVEL = "model_checking"
-MATCHERS = {}
 CLAUSES = ["EachCellCoupledBothSides", "FacesCoincideWithCell", "OppositeNormalsC", "FractureTagsExact", "HostVolume",
            "CellsOnFracture", "MortarSidesMatch"]
 SELF = ["InFamily"]
@@ -34,6 +33,37 @@ FXU = 2 ** 26
 CLAMP = 15.0
 POOL = 8
 BATCH = 2500
+
+
+# ---------------------------------------------------------------------------------------------------
+# known-finding matcher (structural): the meshing raised an AssertionError on a 3D network of axis-aligned rectangles in
+# which two pairwise intersection segments lie on the same line and overlap PARTIALLY (neither contains the other) -
+# FractureNetwork3d.split_intersections then fails (sort_point_pairs), depending on the order of the fractures
+def _unit_edges(verts):
+    import itertools
+
+    lo = [min(v[i] for v in verts) for i in range(3)]
+    hi = [max(v[i] for v in verts) for i in range(3)]
+    if sum(1 for i in range(3) if lo[i] == hi[i]) != 1:
+        return None
+    return {q for q in itertools.product(*[range(2 * lo[i], 2 * hi[i] + 1) for i in range(3)])
+            if sum(x % 2 for x in q) == 1}
+
+
+def partially_overlapping_intersection_segments(rec):
+    import itertools
+
+    i = rec["in"]
+    if i["dim"] != 3 or not rec["observed"]["err"].startswith("AssertionError"):
+        return False
+    es = [_unit_edges(v) for v in i["fracs"]]
+    if any(e is None for e in es):
+        return False
+    segs = [a & b for a, b in itertools.combinations(es, 2) if a & b]
+    return any((s & t) and (s - t) and (t - s) for s, t in itertools.combinations(segs, 2))
+
+
+MATCHERS = {"partially_overlapping_intersection_segments": partially_overlapping_intersection_segments}
 
 
 # ---------------------------------------------------------------------------------------------------
@@ -303,8 +333,8 @@ def boxes(ctx):
         return [(2, (3, 3, 0), 2, True, 1, 1), (2, (3, 2, 0), 3, False, 1, 1), (3, (2, 2, 2), 2, False, 1, 1)], []
     return ([(2, (4, 4, 0), 2, True, 1, 1), (2, (3, 3, 0), 3, False, 1, 1), (2, (3, 2, 0), 3, True, 1, 1),
              (3, (2, 2, 2), 3, False, 1, 1), (3, (3, 2, 2), 2, False, 1, 1)],
-            [(2, (4, 4, 0), 3, True, 1, 100), (2, (4, 3, 0), 3, True, 1, 40), (3, (3, 3, 3), 3, True, 80, 200),
-             (3, (3, 3, 2), 3, True, 30, 100)])
+            [(2, (4, 4, 0), 3, True, 1, 150), (2, (4, 3, 0), 3, True, 1, 60), (3, (3, 3, 3), 3, True, 160, 150),
+             (3, (3, 3, 2), 3, True, 60, 80)])
 
 
 def netkey(r):
